@@ -17,8 +17,15 @@ def by_traits(facts, traits, crates=("xml_dom",)):
     return sorted(out)
 
 
+INFO_ACCESSOR_TRAITS = ("xml_info::Document", "xml_info::Element", "xml_info::Attribute", "xml_info::ProcessingInstruction",
+                        "xml_info::UnexpandedEntityReference", "xml_info::Character", "xml_info::Comment",
+                        "xml_info::DocumentTypeDeclaration", "xml_info::UnparsedEntity", "xml_info::Notation", "xml_info::Namespace")
+
+
 def c03(facts):
-    roots = []
+    # parse, build, print - and the accessors of the information set (its properties are computed on demand:
+    # [unparsed entities], [references], [notation] ... are part of "information-set construction")
+    roots = by_traits(facts, INFO_ACCESSOR_TRAITS, crates=("xml_info",))
     for f in facts.fns.values():
         p = f["path"]
         if f["crate"] == "xml_parser" and f.get("vis") == "Public" and f["kind"] == "Fn" and "::model::" not in p:
